@@ -308,6 +308,9 @@ func workC18(req *Request, set []byte) {
 		})
 	}
 
+	if req.SetOnly {
+		return
+	}
 	// ---- per message: a fresh cache, then reflector + codec
 	for _, md := range msgs {
 		md := md
